@@ -15,13 +15,13 @@ ASSUMPTIONS = ['tours are produced by the real Tour::new on symbolic trips/slots
 BOUNDS = {'quick': '3 vehicles (service tour, maintenance tour, tour on the overflow depot) + 1 probe vehicle + 1 alternative tour, 2 real depots with symbolic locations; all scripts of 2 operations after the three initial add_vehicle_to_own_cycle, plus Transition::new_fast on 2-3 vehicles',
           'thorough': '4 vehicles; all scripts of 3 operations after the initial insertions; new_fast on up to 4 vehicles'}
 OUTSIDE = 'longer scripts, more vehicles; rapid_solve local search acceptance'
-REQUIRED_COVERS = {'quick': ['op:move', 'op:remove', 'op:add_own', 'op:add_end', 'op:update', 'op:three_opt', 'empty cycle reused', 'negative counter'],
+REQUIRED_COVERS = {'quick': ['op:batch', 'op:move', 'op:remove', 'op:add_own', 'op:add_end', 'op:update', 'op:three_opt', 'empty cycle reused', 'negative counter'],
                    'thorough': ['op:move', 'op:remove', 'op:add_own', 'op:add_end', 'op:update', 'op:three_opt', 'empty cycle reused', 'negative counter']}
 
 # vehicle pool: (start depot, end depot, kind)
 POOL = {'quick': [('real0', 'real0', 'S'), ('real0', 'real1', 'M'), ('overflow', 'real0', 'S')],
         'thorough': [('real0', 'real0', 'S'), ('real0', 'real1', 'M'), ('overflow', 'real0', 'S'), ('real1', 'overflow', 'S')]}
-PROBE = ('real1', 'real0', 'S'); ALT = ('real1', 'real1', 'S')     # alternative tour for update_vehicle of vehicle 0
+PROBE = ('real1', 'real0', 'S'); ALT = ('real1', 'real1', 'S'); ALT1 = ('real1', 'real0', 'S')     # alternative tours for update_vehicle of vehicles 0 and 1
 
 def depot_node(net, which, start):
     d = net.depots[-1] if which == 'overflow' else net.depots[int(which[4:])]
@@ -29,11 +29,11 @@ def depot_node(net, which, start):
 
 def setup(ex, tier, pool):
     """network + one real Tour per pool entry (+ probe + alt); returns net, tours(list of node lists), tour values"""
-    kinds = [k for _, _, k in pool] + [PROBE[2], ALT[2]]
+    kinds = [k for _, _, k in pool] + [PROBE[2], ALT[2], ALT1[2]]
     sp = mk_spec(tier, sum(1 for k in kinds if k == 'S'), sum(1 for k in kinds if k == 'M'), ndepots=2)
     net = NB.build(ex, sp)
     trips = list(net.trips); maints = list(net.maint); tours = []; vals = []
-    for sd, ed, k in list(pool) + [PROBE, ALT]:
+    for sd, ed, k in list(pool) + [PROBE, ALT, ALT1]:
         act = trips.pop(0) if k == 'S' else maints.pop(0)
         T = [depot_node(net, sd, True), act, depot_node(net, ed, False)]
         r = ex.call('Tour::new', [VecVal([Cell(net.info[n]['idx']) for n in T]), net.arc])
@@ -48,7 +48,7 @@ def read_tr(ex, tr):
     empt = [conc(c.v) for c in F(tr, 'Transition', 'empty_cycles').cells]
     return cyc, cnt, look, empt, F(tr, 'Transition', 'total_maintenance_violation').e, F(tr, 'Transition', 'total_maintenance_counter').e
 
-def valid_ops(cyc, nveh, has_alt_for=(0,)):
+def valid_ops(cyc, nveh, has_alt_for=(0, 1)):
     present = [v for c in cyc for v in c]; absent = [v for v in range(nveh) if v not in present]
     ops = []
     for v in absent: ops.append(('add_own', v))
@@ -62,6 +62,12 @@ def valid_ops(cyc, nveh, has_alt_for=(0,)):
     for c in range(len(cyc)):
         n = len(cyc[c])
         for i, j, k in itertools.combinations(range(n), 3): ops.append(('three_opt', c, i, j, k))
+    # batches as Schedule::update_transitions_and_violation_fast issues them: shared old tours, growing map of updated tours
+    for a in present:
+        for b in present:
+            if a != b and a in has_alt_for:
+                if b in has_alt_for: ops.append(('batch', ('update', a), ('update', b)))
+                ops.append(('batch', ('update', a), ('remove', b)))
     return ops
 
 def model_apply(cyc, empt, op):
@@ -84,6 +90,9 @@ def model_apply(cyc, empt, op):
     elif k == 'add_end': add_end(op[1], op[2])
     elif k == 'three_opt':
         c, i, j, kk = op[1:]; x = cyc[c]; cyc[c] = x[:i+1] + x[j+1:kk+1] + x[i+1:j+1] + x[kk+1:]
+    elif k == 'batch':
+        for sub in op[1:]:
+            if sub[0] == 'remove': rem(sub[1])
     return cyc, empt
 
 def scripts(nveh, length):
@@ -131,7 +140,7 @@ def check_state(J, ex, net, pc, tr, cur, label, mk):
 
 def job_scripts(name, tier, vecs):
     J = JobCtx(name, CRATES); ex = J.ex
-    pool = POOL[tier]; nveh = len(pool); probe = nveh; alt = nveh + 1
+    pool = POOL[tier]; nveh = len(pool); probe = nveh; alt = nveh + 1; alts = {0: nveh + 1, 1: nveh + 2}
     for vec in vecs:
         def body():
             ex.pc_global = []; ex.inputs = {}
@@ -153,8 +162,18 @@ def job_scripts(name, tier, vecs):
                 elif k == 'add_end':
                     cur[op[1]] = op[1]
                     tr = ex.call('Transition::add_vehicle_at_the_end', [Ref(Cell(tr)), NB.vehidx(op[1]), bv(op[2], 'usize'), Ref(Cell(empty)), Ref(Cell(tmap(cur))), nw])
+                elif k == 'batch':
+                    old = tmap(cur); updated = MapVal(name='updated')
+                    for sub in op[1:]:
+                        v = sub[1]
+                        if sub[0] == 'update':
+                            new = alts[v] if cur[v] != alts[v] else v
+                            tr = ex.call('Transition::update_vehicle', [Ref(Cell(tr)), NB.vehidx(v), Ref(Cell(vals[new])), Ref(Cell(updated)), Ref(Cell(old)), nw])
+                            updated.entries.append((NB.vehidx(v), Cell(Ref(Cell(vals[new]))))); cur[v] = new
+                        else:
+                            tr = ex.call('Transition::remove_vehicle', [Ref(Cell(tr)), NB.vehidx(v), Ref(Cell(updated)), Ref(Cell(old)), nw]); del cur[v]
                 elif k == 'update':
-                    new = alt if cur[op[1]] != alt else op[1]
+                    new = alts[op[1]] if cur[op[1]] != alts[op[1]] else op[1]
                     tr = ex.call('Transition::update_vehicle', [Ref(Cell(tr)), NB.vehidx(op[1]), Ref(Cell(vals[new])), Ref(Cell(empty)), Ref(Cell(tmap(cur))), nw]); cur[op[1]] = new
                 elif k == 'three_opt':
                     c, i, j, kk = op[1:]
@@ -189,6 +208,11 @@ def job_scripts(name, tier, vecs):
                     elif k == 'add_end': o.update(what='add_vehicle_at_the_end', vehicle='veh_%d' % op[1], cycle=op[2])
                     elif k == 'update': o.update(what='update_vehicle', vehicle='veh_%d' % op[1], new_tour=tn(cur_after[op[1]]))
                     elif k == 'three_opt': o.update(what='three_opt', cycle=op[1], i=op[2], j=op[3], k=op[4])
+                    elif k == 'batch':
+                        subs = []
+                        for sub in op[1:]:
+                            subs.append(dict(what='update_vehicle', vehicle='veh_%d' % sub[1], new_tour=tn(cur_after[sub[1]])) if sub[0] == 'update' else dict(what='remove_vehicle', vehicle='veh_%d' % sub[1]))
+                        o.update(what='batch', subs=subs)
                     ops.append(o); cur = cur_after
                 mc = {tn(i): mval(m, TS.maintenance_counter(net, T)) for i, T in enumerate(tours)}
                 dist = {}
